@@ -76,6 +76,14 @@ def cases(tier, seed):
                 cs.append({'scen': 'riem_gradient', 's': dict(s, before='gradient'), 'opts': AD})
                 if th or not pats:
                     cs.append({'scen': 'riem_gradient', 's': dict(s, before='projection'), 'opts': AD})
+    # the projected tensor is the output of round() (right-orthogonal cores) while the base point is not orthogonal
+    for N, M in [([2, 2], None), ([2, 2, 2], None), ([2, 2], [2, 1])]:
+        d = len(N)
+        for what in ('selfadjoint', 'residual_orthogonal', 'linear'):
+            sd = {'N': N, 'Rx': [1] * (d + 1), 'Rz': [1] * (d + 1), 'Rw': [1] * (d + 1), 'what': what, 'z_rounded': True}
+            if M:
+                sd['M'] = M
+            cs.append({'scen': 'riem_projection', 's': sd})
     # base points whose cores are views: transposed operators (permuted strides) and strided slices; order 3 so that an interior core exists
     for N, M, via in [([2, 2, 1], [1, 2, 2], 'transposed'), ([2, 2], [2, 1], 'transposed'), ([2, 2, 2], None, 'sliced')] + ([([2, 2, 2], [2, 2, 1], 'transposed')] if th else []):
         d = len(N)
